@@ -382,9 +382,20 @@ class World(object):
             if kind == 'dlink':
                 lk = ['dangling', 'reldangling', 'dangling'][v % 3]
             else:
-                lk = ['file', 'dir', 'link', 'relfile', 'xvolfile', 'dir', 'toentry'][v % 7]
+                lk = ['file', 'dir', 'link', 'relfile', 'xvolfile', 'dir', 'toentry', 'mounttop'][v % 8]
                 if lk == 'toentry' and (in_trash or not getattr(self, 'entry_paths', None)):
                     lk = 'file'
+                if lk == 'mounttop':
+                    # the target is the top directory of a mounted volume (~/usb -> /media/usb): still only a link
+                    here = self.vol_of_region(next((r for r in REGIONS if pathb.startswith(os.fsencode(self.rpath(r)) + b'/')
+                                                   and r in self.cfg['mounted'] and r != 'R'), 'R'))
+                    others = [r for r in self.cfg['mounted'] if r != 'R' and r != here]
+                    usedt = self.__dict__.setdefault('used_link_targets', set())
+                    # (a link's identity is its target string: one such link per world)
+                    if others and not in_trash and os.fsencode(self.rpath(others[0])) not in usedt:
+                        usedt.add(os.fsencode(self.rpath(others[0])))
+                    else:
+                        lk = 'dir'
             if lk == 'dangling':
                 tgt = '/nonexistent/tgt-%d' % o
             elif lk == 'reldangling':
@@ -398,6 +409,8 @@ class World(object):
                     tgt = os.fsdecode(others[(v + o) % len(others)])
                 else:
                     tgt = self.outside_target(o, 'file')
+            elif lk == 'mounttop':
+                tgt = self.rpath(others[0])
             elif lk == 'relfile':
                 # relative target (meaningful at the original location only)
                 tgt = os.path.relpath(self.outside_target(o, 'file'), os.fsdecode(os.path.dirname(pathb)))
@@ -617,7 +630,12 @@ class World(object):
         elif j['kind'] == 'notinfo':
             # a file in info/ that is not the info file of any slot: another suffix, or no slot name at all
             s = b'junk-%d.txt' % j['id']
-            if rnd.random() < 0.5:
+            real_slots = sorted(sl for (tt_, sl), (kind_, _) in self.slots.items() if tt_ == j['t'] and kind_ == 'item')
+            if real_slots and rnd.random() < 0.3:
+                # the name of a REAL entry with the suffix in another letter case: not an info file (the suffix is .trashinfo),
+                # though its content says "old": taking it for one purges that entry's payload
+                s = rnd.choice(real_slots) + rnd.choice([b'.TRASHINFO', b'.Trashinfo', b'.trashInfo'])
+            elif rnd.random() < 0.5:
                 # no slot name at all, or the slot names '.' and '..' (which can never be payloads: files/. is files/ itself,
                 # files/.. is the trash directory)
                 alt = rnd.choice([b'.trashinfo', b'..trashinfo', b'...trashinfo'])
